@@ -1,4 +1,5 @@
 import SqlProofs.IndentSpec
+import SqlModel.Filters.Lift
 /-!
 # SqlProofs.ReindentBreaks — C10, reindent clause: clause keywords start their own line (node level)
 
@@ -39,34 +40,6 @@ The statement for every list of the tree at once (the lift through `_process_ide
 set_option linter.unusedSimpArgs false
 namespace Sql
 open FNode (leaves leavesL)
-
-/-- a whitespace-typed leaf whose value starts with a line break: what `self.nl()` builds -/
-def isNlTok : FNode → Bool
-  | .tok tt v => tt.isIn T.Whitespace && v.head? == some 10
-  | .grp .. => false
-
-/-- the previous sibling is an `nl()` token -/
-def nlBefore : Option FNode → Bool
-  | some p => isNlTok p
-  | none => false
-
-/-- the previous sibling is an `nl()` token, or a non-whitespace sibling whose text ends in a line break -/
-def lineBreakBefore : Option FNode → Bool
-  | some p => isNlTok p || (!p.isWhitespace && endsWithNl p.text)
-  | none => false
-
-/-- one step of the `_next_token` automaton: new count of pending BETWEENs, and whether `k` is handed to `_split_kwds` -/
-def kwStep (isSplit : FNode → Bool) (d : Nat) (k : FNode) : Nat × Bool :=
-  if !isSplit k then (d, false)
-  else if k.normIs "BETWEEN" then (d + 1, false)
-  else if d > 0 && k.normIs "AND" then (d - 1, false)
-  else (0, true)
-
-/-- every child that `_next_token` selects satisfies `chk` of its previous sibling -/
-def selectedOK (isSplit : FNode → Bool) (chk : Option FNode → Bool) : Nat → Option FNode → List FNode → Bool
-  | _, _, [] => true
-  | d, prev, k :: rest =>
-    (!(kwStep isSplit d k).2 || chk prev) && selectedOK isSplit chk (kwStep isSplit d k).1 (some k) rest
 
 def scanSt (isSplit : FNode → Bool) : Nat → List FNode → Nat
   | d, [] => d
@@ -233,17 +206,6 @@ theorem splitKwdsGo_selectedOK (nl : FNode) (hnl : isNlTok nl = true) (hyp chk :
 
 
 /-! ## the two instances -/
-
-/-- input side, weak: no selected keyword directly follows a *whitespace* child whose text ends in a line break
-(`_split_kwds` deletes such a child and then, misled by `uprev`, inserts nothing) -/
-def noWsBreakBefore : Option FNode → Bool
-  | some p => !(p.isWhitespace && endsWithNl p.text)
-  | none => true
-
-/-- input side, strong: no selected keyword directly follows a child whose text ends in a line break -/
-def noBreakBefore : Option FNode → Bool
-  | some p => !endsWithNl p.text
-  | none => true
 
 theorem KwInv_nil (chk : Option FNode → Bool) : KwInv chk [] 0 := ⟨rfl, rfl⟩
 
